@@ -1476,6 +1476,7 @@ def gen_plan_threads(seed: int, wide=False) -> dict:
         'keyspace': rk.choice([2, 3, 4, 6]),
         'valid_p': 0.85,
         'trace_scope': rk.choice(['memo', 'memo', 'all']),
+        'opcode_trace': rk.random() < 0.3,
     }
     plan = {'prop': PROP, 'seed': seed, 'cls': 'threads_wide' if wide else 'threads', 'knobs': knobs, 'setup': [], 'threads': [], 'ops': []}
     if target == 'keycache':
@@ -1550,7 +1551,8 @@ def execute_threads(plan, want_trace=False) -> dict:
         counters[k] = counters.get(k, 0) + n
 
     sched = Scheduler(st.rng('sched'), TRACED_ALL if knobs.get('trace_scope') == 'all' else TRACED,
-                      switch_p=knobs['switch_p'], schedule=plan.get('schedule'), max_steps=60000)
+                      switch_p=knobs['switch_p'], schedule=plan.get('schedule'), max_steps=120000,
+                      opcode_files=('pane/util.py',) if knobs.get('opcode_trace') else ())
     sched.region_probe = lambda fr: fr.f_code.co_name == '__call__' and fr.f_code.co_filename.endswith('pane/util.py')
     util = sys.modules['pane.util']
     saved_locks = {n: util.__dict__.get(n) for n in ('RLock', 'Lock')}
